@@ -108,6 +108,7 @@ func c09Gen(rng *verifsim.RNG, idx int, tier string) *Plan {
 		p.Class = "runs+timeouts"
 		p.Faults = append(p.Faults, Fault{Seam: "read", Err: "timeout", N: rng.Range(2, 10), Count: rng.Range(1, 3)})
 	}
+	maybeReinit(rng, p, "eth0", 50*nsMs, t, 0.2)
 	p.Horizon = t + 3*nsSec
 	return p
 }
@@ -250,7 +251,7 @@ func c09Oracle(info *runInfo, res *verifsim.Result) {
 				res.Violate("C09.alive", "stopped", "%s: task ended at %s before any stop was requested: %s", ifn, ms(e.T), e.Err)
 			}
 		}
-		if len(h.gens) > 1 {
+		if len(h.gens) > 1 && !strings.Contains(info.plan.Class, "+reinit") {
 			res.Violate("C09.alive", "redialled", "%s: the connection was re-established %d times although nothing but (in)valid messages arrived", ifn, len(h.gens)-1)
 		}
 		// every action delivered must have been read by the stop: a packet left in
@@ -304,6 +305,9 @@ func c09Answered(info *runInfo, res *verifsim.Result, h *history, ifn string, st
 			}
 			if stopT != 0 && r.t+maxRADelayNs > stopT {
 				continue
+			}
+			if g.endSeq != 0 && r.t+maxRADelayNs > g.tEnd {
+				continue // re-initialised before it was due
 			}
 			need[r.src.String()]++
 		}
